@@ -151,6 +151,110 @@ fn after_packet_params(chip: &str, sf: usize, bw: usize) -> Result<Option<(bool,
     Ok(decision.map(|d| (d, out)))
 }
 
+
+// ------------------------------------------------------------------ sequences through the LoRa front-end
+//
+// The decision also has to reach the chip when the same driver instance has been used before: whatever was
+// prepared, transmitted, received or listened for earlier, after a prepare_for_* call the chip holds the
+// modulation (SF, BW, LDRO) a fresh driver programs for the same parameters.
+
+/// ops: 0 prepare_for_tx, 1 prepare_for_rx(Single), 2 prepare_for_rx(Continuous), 3 prepare_for_cad;
+/// middle: 0 nothing, 1 the operation runs to completion (tx / start_rx + complete_rx / cad),
+/// 2 listen() on the same channel, 3 start_rx only (reception left running)
+#[derive(Clone, Debug, Serialize, Deserialize)]
+pub struct SeqCase {
+    pub chip: String,
+    pub first: (usize, usize),
+    pub op1: u8,
+    pub middle: u8,
+    pub second: (usize, usize),
+    pub op2: u8,
+}
+
+/// (sf, bw code, ldro) as the chip holds them; None when a step of the sequence was refused / failed.
+fn run_seq(chip: &str, steps: &[((usize, usize), u8, u8)]) -> Result<Option<(u8, u8, bool)>, String> {
+    use crate::chips::{Sx126xChip, Sx127xChip};
+    use lora_phy::{LoRa, RxMode};
+    let is126 = chip == "sx1262";
+    let env = if is126 { Env::new(Box::new(Sx126xChip::new())) } else { Env::new(Box::new(Sx127xChip::new(false))) };
+    let e2 = env.clone();
+    let ok = catch(move || -> Option<()> {
+        let payload = [0x40u8, 1, 2, 3, 4, 5, 6, 7, 8, 9, 10, 11];
+        macro_rules! go {
+            ($rk:expr) => {{
+                let mut l = drive(LoRa::new($rk, true, e2.delay()))?.ok()?;
+                for &((sf, bw), op, middle) in steps {
+                    let mp = l.create_modulation_params(SFS[sf], BWS[bw], CodingRate::_4_5, 868_100_000).ok()?;
+                    let mut txp = l.create_tx_packet_params(8, false, true, false, &mp).ok()?;
+                    let rxp = l.create_rx_packet_params(8, false, 64, true, true, &mp).ok()?;
+                    let mut buf = [0u8; 64];
+                    match op {
+                        0 => drive(l.prepare_for_tx(&mp, &mut txp, 14, &payload))?.ok()?,
+                        1 => drive(l.prepare_for_rx(RxMode::Single(10), &mp, &rxp))?.ok()?,
+                        2 => drive(l.prepare_for_rx(RxMode::Continuous, &mp, &rxp))?.ok()?,
+                        _ => drive(l.prepare_for_cad(&mp))?.ok()?,
+                    }
+                    match (middle, op) {
+                        (1, 0) => drive(l.tx())?.ok()?,
+                        (1, 1) | (1, 2) => {
+                            drive(l.start_rx())?.ok()?;
+                            drive(l.complete_rx(&rxp, &mut buf))?.ok()?;
+                        }
+                        (1, _) => {
+                            drive(l.cad(&mp))?.ok()?;
+                        }
+                        (2, _) => {
+                            drive(l.listen(868_100_000, BWS[bw]))?.ok()?;
+                        }
+                        (3, 1) | (3, 2) => drive(l.start_rx())?.ok()?,
+                        _ => {}
+                    }
+                }
+                Some(())
+            }};
+        }
+        if is126 {
+            go!(sx126x::Sx126x::new(e2.spi(), e2.iv(), sx126x::Config { chip: sx126x::Sx1262, tcxo_ctrl: None, use_dcdc: true, rx_boost: false }))
+        } else {
+            go!(sx127x::Sx127x::new(e2.spi(), e2.iv(), sx127x::Config { chip: sx127x::Sx1276, tcxo_used: false, tx_boost: false, rx_boost: false }))
+        }
+    })?;
+    if ok.is_none() {
+        return Ok(None);
+    }
+    Ok(Some(if is126 {
+        env.with_chip::<Sx126xChip, _>(|c| (c.mod_params[0], c.mod_params[1], c.mod_params[3] & 1 != 0))
+    } else {
+        env.with_chip::<Sx127xChip, _>(|c| (c.regs[0x1E] >> 4, c.regs[0x1D] >> 4, c.regs[0x26] & 0x08 != 0))
+    }))
+}
+
+pub fn eval_seq(c: &SeqCase) -> Vec<(String, String)> {
+    let tag = format!("{}|sequence", c.chip);
+    let seq = run_seq(&c.chip, &[(c.first, c.op1, c.middle), (c.second, c.op2, 0)]);
+    let alone = run_seq(&c.chip, &[(c.second, c.op2, 0)]);
+    match (seq, alone) {
+        (Err(p), _) | (_, Err(p)) => vec![(format!("C15|{tag}|panic|{}", panic_site(&p)), p)],
+        (Ok(Some(a)), Ok(Some(b))) if a != b => {
+            let what = if a.2 != b.2 { "ldro" } else { "spreading-factor-or-bandwidth" };
+            vec![(
+                format!("C15|{tag}|chip-modulation-differs-from-fresh-driver|{what}"),
+                format!(
+                    "op{} SF{}/{} Hz, middle {}, then op{} SF{}/{} Hz: the chip holds (SF, BW code, LDRO) = {a:?}; a fresh driver programs {b:?}",
+                    c.op1,
+                    SFS[c.first.0].factor(),
+                    BWS[c.first.1].hz(),
+                    c.middle,
+                    c.op2,
+                    SFS[c.second.0].factor(),
+                    BWS[c.second.1].hz()
+                ),
+            )]
+        }
+        _ => vec![],
+    }
+}
+
 pub fn eval(c: &Case) -> Vec<(String, String)> {
     let mut v = vec![];
     let sf = SFS[c.sf].factor();
@@ -204,7 +308,12 @@ pub fn eval(c: &Case) -> Vec<(String, String)> {
 
 pub fn run(tier: Tier, replay: Option<&str>) {
     if let Some(path) = replay {
-        let c: Case = serde_json::from_value(load_case(path)).expect("case");
+        let cj = load_case(path);
+        if cj.get("op1").is_some() {
+            let c: SeqCase = serde_json::from_value(cj).expect("case");
+            replay_exit("C15", path, eval_seq(&c).into_iter().map(|x| x.0).collect());
+        }
+        let c: Case = serde_json::from_value(cj).expect("case");
         replay_exit("C15", path, eval(&c).into_iter().map(|x| x.0).collect());
     }
     let ctx = Ctx::new("C15", tier);
@@ -227,16 +336,55 @@ pub fn run(tier: Tier, replay: Option<&str>) {
             }
         }
     }
+    // sequences on one driver instance (SF7/9/11/12 at 125 kHz, SF12 at 250 kHz: both sides of the LDRO boundary)
+    let mods: [(usize, usize); 5] = [(2, 7), (4, 7), (6, 7), (7, 7), (7, 8)];
+    let mut seq_cases = 0u64;
+    let mut seq_effective = 0u64;
+    for chip in ["sx1262", "sx1276"] {
+        for &first in &mods {
+            for &second in &mods {
+                for op1 in 0..4u8 {
+                    for middle in 0..4u8 {
+                        if middle == 3 && !(op1 == 1 || op1 == 2) {
+                            continue;
+                        }
+                        for op2 in 0..4u8 {
+                            let c = SeqCase { chip: chip.into(), first, op1, middle, second, op2 };
+                            let v = eval_seq(&c);
+                            seq_cases += 1;
+                            if matches!(run_seq(chip, &[(first, op1, middle), (second, op2, 0)]), Ok(Some(_))) {
+                                seq_effective += 1;
+                            }
+                            for (sig, what) in v {
+                                ctx.violation(sig, what, serde_json::to_value(&c).unwrap(), 2);
+                            }
+                            ctx.tick(1);
+                        }
+                    }
+                }
+            }
+        }
+    }
+    if seq_effective * 2 < seq_cases {
+        eprintln!("MACHINERY: C15 sequence part is vacuous: {seq_effective} of {seq_cases} sequences ran to the end");
+        std::process::exit(2);
+    }
     let coverage = json!({
+        "sequence_cases": seq_cases,
+        "sequences_run_to_the_end": seq_effective,
         "evaluations": ctx.evals(),
         "distinct_nontrivial": supported,
-        "rule": "all 8 spreading factors x 10 bandwidths x {airtime calculator, SX1261, SX1262, STM32WL LP/HP, SX1272, SX1276, LR1110}; for every pair the chip accepts: the decision in ModulationParams / BaseBandModulationParams and the LDRO bit actually written on SPI by set_modulation_params (for the register-based SX127x with all 256 prior values of the read-modify-write register) against the exact rational rule 2^SF/BW >= 16.38 ms; for the SX127x additionally the bit left in the chip model's register file after the usual set_modulation_params -> set_packet_params sequence; non-trivial = pairs the chip supports",
+        "rule": "all 8 spreading factors x 10 bandwidths x {airtime calculator, SX1261, SX1262, STM32WL LP/HP, SX1272, SX1276, LR1110}; for every pair the chip accepts: the decision in ModulationParams / BaseBandModulationParams and the LDRO bit actually written on SPI by set_modulation_params (for the register-based SX127x with all 256 prior values of the read-modify-write register) against the exact rational rule 2^SF/BW >= 16.38 ms; for the SX127x additionally the bit left in the chip model's register file after the usual set_modulation_params -> set_packet_params sequence; sequences through the LoRa front-end on one driver instance (SX1262, SX1276 chip models): {prepare_for_tx, prepare_for_rx single/continuous, prepare_for_cad} with one modulation, {nothing, operation completed, listen(), reception left running}, then a prepare_for_* with a second modulation: the chip's SF/BW/LDRO must equal what a fresh driver programs; non-trivial = pairs the chip supports",
         "samples": [serde_json::to_value(Case { chip: "sx1276".into(), sf: 6, bw: 7 }).unwrap(), serde_json::to_value(Case { chip: "sx1262".into(), sf: 7, bw: 6 }).unwrap()],
         "exhaustive": true,
         "pairs_supported": supported,
         "pairs_with_ldro_on": on,
     });
     let replayer = |cj: &Value| -> Vec<String> {
+        if cj.get("op1").is_some() {
+            let c: SeqCase = serde_json::from_value(cj.clone()).unwrap();
+            return eval_seq(&c).into_iter().map(|x| x.0).collect();
+        }
         let c: Case = serde_json::from_value(cj.clone()).unwrap();
         eval(&c).into_iter().map(|x| x.0).collect()
     };
